@@ -174,7 +174,7 @@ struct tcp_run
 		{
 			int n = ++seen_tx[key];
 			digest[key] = dig(p.buffer);
-			e["e"] = "Wire"; e["nth"] = n; e["hop"] = hop.substr(4);
+			e["e"] = "Wire"; e["nth"] = n; e["hop"] = hop.substr(4); e["dig"] = std::int64_t(dig(p.buffer));
 			e["from"] = ep_json(w, p.from);
 			e["cb"] = bool(p.drop_fun);
 			if (p.drop_fun && p.type == packet::type_t::payload)
@@ -516,6 +516,7 @@ struct tcp_run
 		sim.reset(new sim::simulation(w));
 		w.on_probe = [this](std::string const& hop, packet& p) { on_hop(hop, p); };
 		w.hops["ctl"] = ctl;
+		if (prog.find("pcap") != prog.end()) sim->log_pcap(gets(prog, "pcap").c_str());
 		for (auto const& kv : topo.at("nodes").as_object())
 		{
 			std::vector<asio::ip::address> ips;
@@ -533,7 +534,11 @@ struct tcp_run
 		{
 			json::object c; c["e"] = "Cfg";
 			json::object nat;
-			for (auto const& a : w.addrs) nat[a.first] = a.second.nat;
+			for (auto const& a : w.addrs)
+			{
+				std::size_t plus = a.second.nat.rfind('+');
+				nat[a.first] = plus == std::string::npos ? a.second.nat : a.second.nat.substr(plus + 1);
+			}
 			c["nat"] = nat;
 			rec.emit(c);
 		}
@@ -567,6 +572,18 @@ struct tcp_run
 				if (!ec) l.listen(10, ec);
 				std::int64_t t = rec.sync();
 				json::object e; e["e"] = "Listen"; e["l"] = name; e["ec"] = ec_name(ec); e["t"] = t;
+				json::array ep; ep.push_back(json::string(addr)); ep.push_back(port); e["ep"] = ep;
+				rec.emit(e);
+			});
+			std::int64_t rt = geti(a, "rebind_at", -1);
+			if (rt >= 0) at(rt, [this, name, addr, port]() {
+				if (!accs[name]) return;
+				error_code ec;
+				tcp::acceptor& l = *accs[name];
+				l.open(tcp::v4(), ec);
+				l.bind(tcp::endpoint(w.real_addr(addr), std::uint16_t(port)), ec);
+				std::int64_t t = rec.sync();
+				json::object e; e["e"] = "BindAcc"; e["l"] = name; e["ec"] = ec_name(ec); e["t"] = t;
 				json::array ep; ep.push_back(json::string(addr)); ep.push_back(port); e["ep"] = ep;
 				rec.emit(e);
 			});
